@@ -14,6 +14,7 @@ import (
 	"runtime"
 	"syscall"
 	"testing"
+	"time"
 )
 
 func demoTempFile(t *testing.T) string {
@@ -327,5 +328,37 @@ func TestDemoD13MisalignedBaseInterval(t *testing.T) {
 		for until := from; until <= now; until += 3 {
 			db.FetchFromArchive(0, from, until, now)
 		}
+	}
+}
+
+// D17 (C04.R4 / C03.R2 Timestamp.Add:saturates-at-epoch): a valid layout whose
+// retention reaches back before 1970 (1d:60y today) made now.Add(-retention) wrap
+// around in uint32: every update was refused as "not covered by any archives"
+// and every fetch answered "no series" (fixed; passes on the repaired tree).
+func TestDemoD17RetentionLongerThanTheEpoch(t *testing.T) {
+	dir, err := ioutil.TempDir("", "wtdemo")
+	if err != nil {
+		t.Fatal(err)
+	}
+	defer os.RemoveAll(dir)
+	rets, err := ParseArchiveInfoList("1d:60y")
+	if err != nil {
+		t.Fatal(err)
+	}
+	db, err := Create(filepath.Join(dir, "long.wsp"), rets, Sum, 0)
+	if err != nil {
+		t.Fatal(err)
+	}
+	defer db.Close()
+	now := TimestampFromStdTime(time.Now())
+	if err := db.UpdatePointForArchive(0, now.Add(-Day), 7, now); err != nil {
+		t.Errorf("update of yesterday's point in a 1d:60y file: %v", err)
+	}
+	ts, err := db.FetchFromArchive(0, now.Add(-10*Day), now, now)
+	if err != nil {
+		t.Fatal(err)
+	}
+	if ts == nil {
+		t.Errorf("fetch of the last ten days of a 1d:60y file returns no series")
 	}
 }
